@@ -84,7 +84,11 @@ impl NativeFunctionCompiler for SetNotElementOf {
     if arguments.len() != 2 {
       return Err(MechError::new(IncorrectNumberOfArguments { expected: 2, found: arguments.len() }, None).with_compiler_loc());
     }
-    let elem = arguments[0].clone();
+    // An element held in a variable arrives as a reference; the set compares element values, so look through it.
+    let elem = match &arguments[0] {
+      Value::MutableReference(elem) => elem.borrow().clone(),
+      elem => elem.clone(),
+    };
     let set = arguments[1].clone();
     match set_not_element_of_fxn(elem.clone(), set.clone()) {
       Ok(fxn) => Ok(fxn),
